@@ -361,7 +361,7 @@ SHAPES = {
 SHAPES.update({
     'FloatPrecision.exponent': 'f05bb99244677cdf',
     'FloatPrecision._float_to_string': '4a01c4a703360406',
-    'ScientificFloat.__str__': '959af872670aff82',
+    'ScientificFloat.__str__': 'b90833e9a62d10b5',
     'ScientificComplex.__str__': '11bc64adae7478d1',
     'ScientificComplex.real': '10d176b10debae0d',
     'ScientificComplex.imag': 'b111047d5097cf66',
@@ -522,7 +522,7 @@ def _gen_fmt_tables(src) -> str:
         fn = find_func(cls.body, name)
         return fn
     L.append(translate(prop(fp, 'is_zero'), 'fp_is_zero', 'FloatPrecision.is_zero', PT, 'Bool', self_order=['value', 'exponent', 'min_exp'])[0])
-    L.append(translate(prop(fp, 'is_inf'), 'fp_is_inf', 'FloatPrecision.is_inf', PT, 'Bool', self_order=['value', 'exponent', 'max_exp'])[0])
+    L.append(translate(prop(fp, 'is_inf'), 'fp_is_inf', 'FloatPrecision.is_inf', PT, 'Bool', self_order=['value', 'precision', 'exponent', 'max_exp'])[0])
     L.append(translate(prop(fp, 'mantissa'), 'fp_mantissa', 'FloatPrecision.mantissa', PT, 'Int', self_order=['value', 'exponent'])[0])
     L.append(translate(prop(f3, 'exponent3'), 'f3_exponent3', 'Float3.exponent3', PT, 'Int', self_order=['precision', 'exponent'])[0])
     L.append(translate(prop(f3, 'mantissa3'), 'f3_mantissa3', 'Float3.mantissa3', PT, 'Rat', self_order=['mantissa', 'exponent', 'exponent3'])[0])
